@@ -69,7 +69,9 @@ func (c *cliFront) close() {
 type cliCall struct {
 	argv []string
 	// ret fills the return record from stderr and the side files; false = the record is not complete
-	ret func(stderr string, ret map[string]interface{}) bool
+	ret func(stdout, stderr string, ret map[string]interface{}) bool
+	// query: the command prints numbers, not sequences (no object is read back)
+	query bool
 }
 
 var reStart = regexp.MustCompile(`number of start [^=]*=(-?\d+)`)
@@ -158,7 +160,7 @@ func (c *cliFront) plan(o *obj, st Step) (*cliCall, string) {
 				}
 			}
 		}
-		return &cliCall{argv: argv, ret: func(stderr string, ret map[string]interface{}) bool {
+		return &cliCall{argv: argv, ret: func(stdout, stderr string, ret map[string]interface{}) bool {
 			m1, m2 := reStart.FindStringSubmatch(stderr), reEnd.FindStringSubmatch(stderr)
 			k, ok1 := readInts(kept)
 			r, ok2 := readInts(rm)
@@ -196,13 +198,145 @@ func (c *cliFront) plan(o *obj, st Step) (*cliCall, string) {
 				}
 			}
 		}
-		return &cliCall{argv: argv, ret: func(stderr string, ret map[string]interface{}) bool {
+		return &cliCall{argv: argv, ret: func(stdout, stderr string, ret map[string]interface{}) bool {
 			m := reRemoved.FindStringSubmatch(stderr)
 			if m == nil {
 				return false
 			}
 			n, _ := strconv.Atoi(m[1])
 			ret["n"] = n
+			return true
+		}}, ""
+	case "CharStats":
+		if !needsAlign() {
+			return nil, "bag"
+		}
+		return &cliCall{argv: []string{"stats", "char"}, query: true, ret: func(stdout, stderr string, ret map[string]interface{}) bool {
+			lines := strings.Split(strings.TrimRight(stdout, "\n"), "\n")
+			if len(lines) < 1 || lines[0] != "char\tnb\tfreq" {
+				return false
+			}
+			m := [][]int{}
+			for _, l := range lines[1:] {
+				f := strings.Split(l, "\t")
+				if len(f) != 3 || len(f[0]) != 1 {
+					return false
+				}
+				n, err := strconv.Atoi(f[1])
+				if err != nil {
+					return false
+				}
+				m = append(m, []int{int(f[0][0]), n})
+			}
+			ret["m"] = m
+			return true
+		}}, ""
+	case "CharStatsSeq":
+		idx := ai(a, "idx")
+		if !needsAlign() || idx < 0 || idx >= o.sb.NbSequences() {
+			return nil, "index" // the command prints every sequence: there is no index to get wrong
+		}
+		return &cliCall{argv: []string{"stats", "char", "--per-sequences"}, query: true, ret: func(stdout, stderr string, ret map[string]interface{}) bool {
+			lines := strings.Split(strings.TrimRight(stdout, "\n"), "\n")
+			if len(lines) != o.sb.NbSequences()+1 {
+				return false
+			}
+			head := strings.Split(lines[0], "\t")
+			f := strings.Split(lines[idx+1], "\t")
+			if len(f) != len(head) || head[0] != "seq" {
+				return false
+			}
+			m := [][]int{}
+			for k := 1; k < len(head); k++ {
+				n, err := strconv.Atoi(f[k])
+				if err != nil || len(head[k]) != 1 {
+					return false
+				}
+				if n > 0 { // the library's table holds the characters of the sequence only
+					m = append(m, []int{int(head[k][0]), n})
+				}
+			}
+			ret["m"] = m
+			return true
+		}}, ""
+	case "CountProfile":
+		if !needsAlign() {
+			return nil, "bag"
+		}
+		return &cliCall{argv: []string{"stats", "char", "--per-sites"}, query: true, ret: func(stdout, stderr string, ret map[string]interface{}) bool {
+			lines := strings.Split(strings.TrimRight(stdout, "\n"), "\n")
+			if len(lines) != o.al.Length()+1 {
+				return false
+			}
+			head := strings.Split(lines[0], "\t")
+			if head[0] != "site" {
+				return false
+			}
+			prof := []map[string]interface{}{}
+			cols := make([][]int, len(head)-1)
+			for i, l := range lines[1:] {
+				f := strings.Split(l, "\t")
+				if len(f) != len(head) || f[0] != strconv.Itoa(i) {
+					return false
+				}
+				for k := 1; k < len(f); k++ {
+					n, err := strconv.Atoi(f[k])
+					if err != nil {
+						return false
+					}
+					cols[k-1] = append(cols[k-1], n)
+				}
+			}
+			for k := 1; k < len(head); k++ {
+				if len(head[k]) != 1 {
+					return false
+				}
+				prof = append(prof, map[string]interface{}{"c": int(head[k][0]), "n": nn(cols[k-1])})
+			}
+			ret["prof"] = prof
+			return true
+		}}, ""
+	case "MaxCharStats":
+		if !needsAlign() {
+			return nil, "bag"
+		}
+		argv := []string{"stats", "maxchar"}
+		if ab(a, "igaps") {
+			argv = append(argv, "--ignore-gaps")
+		}
+		if ab(a, "ins") {
+			argv = append(argv, "--ignore-n")
+		}
+		return &cliCall{argv: argv, query: true, ret: func(stdout, stderr string, ret map[string]interface{}) bool {
+			lines := strings.Split(strings.TrimRight(stdout, "\n"), "\n")
+			if len(lines) != o.al.Length()+1 || lines[0] != "site\tchar\tnb" {
+				return false
+			}
+			out, occ := []int{}, []int{}
+			for i, l := range lines[1:] {
+				f := strings.Split(l, "\t")
+				if len(f) != 3 || f[0] != strconv.Itoa(i) || len(f[1]) != 1 {
+					return false
+				}
+				n, err := strconv.Atoi(f[2])
+				if err != nil {
+					return false
+				}
+				out, occ = append(out, int(f[1][0])), append(occ, n)
+			}
+			ret["out"], ret["occur"], ret["total"] = out, occ, []int{}
+			return true
+		}}, ""
+	case "AvgAllelesPerSite":
+		if !needsAlign() {
+			return nil, "bag"
+		}
+		return &cliCall{argv: []string{"stats", "alleles"}, query: true, ret: func(stdout, stderr string, ret map[string]interface{}) bool {
+			x, err := strconv.ParseFloat(strings.TrimSpace(stdout), 64)
+			if err != nil {
+				return false
+			}
+			ret["f"] = fstr(x)
 			return true
 		}}, ""
 	case "ReverseComplement":
@@ -256,7 +390,7 @@ func (c *cliFront) plan(o *obj, st Step) (*cliCall, string) {
 		if ab(a, "nasgap") {
 			argv = append(argv, "--n-as-gap")
 		}
-		return &cliCall{argv: argv, ret: func(stderr string, ret map[string]interface{}) bool {
+		return &cliCall{argv: argv, ret: func(stdout, stderr string, ret map[string]interface{}) bool {
 			b, err := os.ReadFile(logf)
 			if err != nil {
 				return false
@@ -289,7 +423,7 @@ func (c *cliFront) plan(o *obj, st Step) (*cliCall, string) {
 		}
 		wf := filepath.Join(c.dir, "weights")
 		os.Remove(wf)
-		return &cliCall{argv: []string{"compress", "--weight-out", wf}, ret: func(stderr string, ret map[string]interface{}) bool {
+		return &cliCall{argv: []string{"compress", "--weight-out", wf}, ret: func(stdout, stderr string, ret map[string]interface{}) bool {
 			w, ok := readInts(wf)
 			if !ok {
 				return false
@@ -451,6 +585,14 @@ func (h *heapRun) cliStep(env *Env, c *cliFront, id string, i int, st Step) {
 		if strings.Contains(ev.Msg, "panic:") || strings.Contains(ev.Msg, "goroutine ") {
 			ev.Kind = "panic"
 		}
+	} else if call.query {
+		ev.Kind = "ok"
+		full := call.ret(stdout.String(), stderr.String(), ret)
+		if !full {
+			c.skipped["output"]++
+			return
+		}
+		ev.A["full"] = true
 	} else {
 		// what the command printed, as an object of the receiver's kind and alphabet
 		var no *obj
@@ -491,7 +633,7 @@ func (h *heapRun) cliStep(env *Env, c *cliFront, id string, i int, st Step) {
 		added = true
 		ev.Kind = "ok"
 		if call.ret != nil {
-			ev.A["full"] = call.ret(stderr.String(), ret)
+			ev.A["full"] = call.ret(stdout.String(), stderr.String(), ret)
 		}
 	}
 	ev.Objs = make([]ObjView, len(h.objs))
